@@ -911,6 +911,39 @@ var scenarioTable = map[string]func(s *sc){
 		}
 		s.flush(any)
 	},
+	// C10/C17: n3 lags at height 1.  Its future cache receives, for height 2 and in this order: the proposal A of the Byzantine
+	// leader n0, the PREPAREs, a COMMIT quorum for A, and then a CONFLICTING proposal B of n0 for the same (height, view).  When n3
+	// closes height 1 the drain decides height 2 in the middle; what is left in the cache is for a height that is over and must
+	// reach no term (the term of height 3 would take B for a first proposal and sign a second PREPARE for (2, 0))
+	"lagging_node_with_conflicting_proposal_behind_commit_quorum_in_its_cache": func(s *sc) {
+		s.startNodes()
+		n0 := s.cl.ids[0]
+		a1 := s.adv.newBody(s.run, 1, false)
+		for _, i := range []int{1, 2} {
+			s.inject(i, s.adv.mkPP(ref(protocol.LEAN_HELIX_PREPREPARE, 1, 0, a1), n0, "", a1), "pp_leader")
+		}
+		s.flush(func(p pending, k string) bool { return k == "P" && p.to != 3 })
+		for _, i := range []int{1, 2} {
+			s.inject(i, s.adv.mkC(ref(protocol.LEAN_HELIX_COMMIT, 1, 0, a1), n0, "", ""), "c_byz_or_outsider")
+		}
+		s.flush(func(p pending, k string) bool { return k == "C" && p.to != 3 }) // n1 and n2 decide height 1
+		a2, b2 := s.adv.newBody(s.run, 2, false), s.adv.newBody(s.run, 2, false)
+		for _, i := range []int{1, 2, 3} {
+			s.inject(i, s.adv.mkPP(ref(protocol.LEAN_HELIX_PREPREPARE, 2, 0, a2), n0, "", a2), "pp_leader")
+		}
+		s.flush(func(p pending, k string) bool { return k == "P" && msgHeight(p) == 2 })
+		for _, i := range []int{3, 1, 2} {
+			s.inject(i, s.adv.mkC(ref(protocol.LEAN_HELIX_COMMIT, 2, 0, a2), n0, "", ""), "c_byz_or_outsider")
+		}
+		s.flush(func(p pending, k string) bool { return k == "C" && msgHeight(p) == 2 })
+		s.inject(3, s.adv.mkPP(ref(protocol.LEAN_HELIX_PREPREPARE, 2, 0, b2), n0, "", b2), "pp_leader_second_proposal")
+		// now the traffic of height 1 reaches n3
+		s.inject(3, s.adv.mkPP(ref(protocol.LEAN_HELIX_PREPREPARE, 1, 0, a1), n0, "", a1), "pp_leader")
+		s.flush(func(p pending, k string) bool { return p.to == 3 && k == "P" && msgHeight(p) == 1 })
+		s.inject(3, s.adv.mkC(ref(protocol.LEAN_HELIX_COMMIT, 1, 0, a1), n0, "", ""), "c_byz_or_outsider")
+		s.flush(func(p pending, k string) bool { return p.to == 3 && k == "C" && msgHeight(p) == 1 })
+		s.flush(any)
+	},
 	// lagging node (all honest): n3 receives the traffic of height 2 first (future cache), then height 1; the
 	// commit of height 1 starts round 2, whose drain commits height 2 in the middle (H11 in situ)
 	"lagging_node_drains_cached_height": func(s *sc) {
@@ -949,7 +982,7 @@ func msgHeight(p pending) uint64 {
 func scenarioByz(name string) []int {
 	switch name {
 	case "vote_with_block_but_no_proof", "spliced_proof_for_rejected_block", "future_commit_signed_for_other_instance",
-		"equivocating_first_leader_commit_quorum_for_the_other_block":
+		"equivocating_first_leader_commit_quorum_for_the_other_block", "lagging_node_with_conflicting_proposal_behind_commit_quorum_in_its_cache":
 		return []int{0}
 	case "lagging_node_drains_cached_height", "new_view_reaches_member_that_has_not_timed_out", "new_view_two_views_ahead_reaches_member_in_view_0":
 		return nil
